@@ -40,7 +40,9 @@ def run(chk):
     chk.prove()
     nbase, per_case, nmax = (250, 24, 24) if chk.quick() else (2500, 100, 48)
     # fault-free base runs (not counted twice: their coverage is recorded by run_stream)
-    cases, lines, impl, parsed, fvh, fvm = recon.run_stream(chk, nbase, nmax)
+    # which blocks are read back is not a subject of C18: get calls are compared softly; when they drift, the k-th storage
+    # operation is a different operation on the two sides and the faulted runs are judged by the oracle alone
+    cases, lines, impl, parsed, fvh, fvm = recon.run_stream(chk, nbase, nmax, gets_matter=False)
     rnd = random.Random(chk.seed + 1)
     fcs = fault_cases(rnd, cases, parsed, per_case)
     flines = [c.line() for c in fcs]
@@ -71,9 +73,11 @@ def run(chk):
             chk.failures.append(core.Failure(m, "recon", "matrix", l, raw, key=key))
         if len([f for f in chk.failures if f.key == "c18"]) > 10: break
     chk.note_cases("recon-fault", flines, nt, dist={"failed_operation_kinds": kinds, "fault_cases": len(flines)})
-    if fvm:
+    if fvm and not chk.drift:
         model = core.run_stream(fvm, "recon", flines)
         chk.correspond("recon-fault", "matrix", flines, fimpl, model)
+    elif fvm:
+        chk.notes.append("recon-fault: storage get calls drifted from the model's; the faulted runs are not compared with the model (oracle only)")
     from . import session
     session.c18_part(chk)
     return chk.finish(level="proof",
